@@ -321,6 +321,11 @@ func c18Closure(c *Ctx, decls map[*types.Func]*ast.FuncDecl) {
 				return true
 			}
 			arg := ast.Unparen(call.Args[0])
+			if id, ok := arg.(*ast.Ident); ok {
+				if d := localDef(info, decl.Body, id); d != nil {
+					arg = ast.Unparen(d) // `if child := field.Message; child != nil { collect(child) }`
+				}
+			}
 			// the enclosing range statements
 			var ranges []*ast.RangeStmt
 			for p := parents[ast.Node(call)]; p != nil; p = parents[p] {
